@@ -479,6 +479,25 @@ class BpWorld(object):
             self.boundary(src.name[0])
         return steps
 
+    def send_reusing(self, octets, expect_error=False):
+        ''' A local application which keeps ONE container for everything it sends: the bundle in it is replaced
+        before each request (BundleContainer.bundle is a public attribute; reload() is the agent's business). '''
+        rec, bun = abstract_bundle(octets)
+        if bun is not None:
+            self.originals[rec['base']] = bp7.payload_of(bun)
+        self.emit('Send', b=rec)
+        try:
+            if getattr(self, '_app_ctr', None) is None:
+                self._app_ctr = BundleContainer(Bundle(octets))
+            else:
+                self._app_ctr.bundle = Bundle(octets)
+                self._app_ctr.route = None
+                self._app_ctr.sender = None
+            self.agent.send_bundle(self._app_ctr)
+        except Exception as err:
+            self.emit('SendError', exc=type(err).__name__, expected=bool(expect_error))
+        self.boundary('send')
+
     def send(self, octets, payload=None, expect_error=False, unfinished_crc=False):
         ''' A local application asks the agent to send the bundle encoded in ``octets``.
         unfinished_crc: as an application builds it - CRC types chosen, CRC values not computed yet. '''
